@@ -488,10 +488,53 @@ func (p *queryPlan) addSpecifiedData(ctx context.Context, r table.Row, cls *sema
 		p.tbl.AddRow(table.MergeRows([]table.Row{r, nr}))
 		return nil
 	}
+	added := false
 	for _, nr := range tbl.Rows() {
+		if !compatibleRows(r, nr) {
+			// A binding has one value per row: the fetched triple binds a shared
+			// binding to a value other than the one the row already holds.
+			continue
+		}
+		p.tbl.AddRow(table.MergeRows([]table.Row{r, nr}))
+		added = true
+	}
+	if !added && cls.Optional {
+		nr := make(table.Row)
+		for _, k := range tbl.Bindings() {
+			if _, ok := r[k]; !ok {
+				nr[k] = &table.Cell{}
+			}
+		}
 		p.tbl.AddRow(table.MergeRows([]table.Row{r, nr}))
 	}
 	return nil
+}
+
+// compatibleRows returns true if the two rows agree on the value of every
+// binding they share.
+func compatibleRows(r, nr table.Row) bool {
+	for k, nc := range nr {
+		c, ok := r[k]
+		if !ok {
+			continue
+		}
+		if c == nil || nc == nil {
+			if c != nc {
+				return false
+			}
+			continue
+		}
+		if c.T != nil && nc.T != nil {
+			if !c.T.Equal(*nc.T) {
+				return false
+			}
+			continue
+		}
+		if !reflect.DeepEqual(c, nc) {
+			return false
+		}
+	}
+	return true
 }
 
 // specifyClauseWithTable runs the clause, but it specifies it further based on
